@@ -85,6 +85,12 @@ func ValidateAttestation(ctx context.Context, subnet uint64, att *phase0.Attesta
 	} else if !inSubtree {
 		return nil, GossipValidatorResult{REJECT, errors.New("block not in subtree of target")}
 	}
+	// Being an ancestor is not enough: the target must be the block the vote's chain had at the start of the target epoch.
+	if ancestor, ok := GetAncestor(ch, blockRef, targetSlot); !ok {
+		return nil, GossipValidatorResult{IGNORE, errors.New("unknown ancestor of voted block, cannot check target")}
+	} else if ancestor != att.Data.Target.Root {
+		return nil, GossipValidatorResult{REJECT, fmt.Errorf("target %s is not the block %s of the voted chain at the target epoch start", att.Data.Target.Root, ancestor)}
+	}
 
 	// [IGNORE] The current finalized_checkpoint is an ancestor of the block defined
 	// by attestation.data.beacon_block_root --
